@@ -4,10 +4,11 @@ import Driver.GraphCmd
 import Driver.SamplerCmd
 import Driver.MirpCmd
 import Driver.FormCmd
+import Driver.ExportCmd
 /-! `vrpdriver`: reads request lines from stdin, writes one reply line each -/
 open Vrp Vrp.Proto Vrp.Drv
 
-def allCmds : List (String × P String) := toolCmds ++ graphCmds ++ samplerCmds ++ mirpCmds ++ formCmds
+def allCmds : List (String × P String) := toolCmds ++ graphCmds ++ samplerCmds ++ mirpCmds ++ formCmds ++ exportCmds
 
 def handle (line : String) : String :=
   let toks := (line.splitOn " ").filter (· ≠ "")
